@@ -51,6 +51,12 @@ Definition fwpx (fam : family) (e : env FA) (frame : Z * Z) : Z :=
 Definition fhpx (fam : family) (e : env FA) (frame : Z * Z) : Z :=
   px_of_lines fam e (lines e frame).
 
+(** "the source, scaled for the pixel ratio, fits the frame's pixel area": ORIGINAL's own
+    pixel size -- the source width and the ROUNDED scaled height
+    [round(ori_height * pixel_ratio)] -- is within the frame's pixel size *)
+Definition fits (fam : family) (e : env FA) (ow oh : Z) (frame : Z * Z) : bool :=
+  ((ow <=? fwpx fam e frame) && (original_hpx fam e oh <=? fhpx fam e frame))%Z.
+
 (** the domain of the theorems: cell size in [1, 2^12] when known, a fixed cell ratio
     finite and in [2^-30, 2^30] (a dynamic one is cw/ch), ... *)
 Definition cell_ok (e : env FA) : Prop :=
